@@ -53,7 +53,8 @@ def parseTok? (s : String) : Option Tok :=
   | _ => none
 
 def parseToks? (s : String) : Option (List Tok) :=
-  if s == "-" then some [] else (s.splitOn ",").mapM parseTok?
+  -- "S" is a pause of the scripted remote: no bytes on the wire
+  if s == "-" then some [] else ((s.splitOn ",").filter (· != "S")).mapM parseTok?
 
 def rdName : Rd → String
   | .version _ _ => "version" | .ping _ => "ping" | .other k => kindName k
